@@ -52,8 +52,18 @@ def untyped_line(cols):
     return "\t".join(v for _, v in cols)
 
 
+def pad_cols(n):
+    """n filler columns P0..P(n-1): they push the key columns to high column indexes"""
+    return [["P%d" % i, "p"] for i in range(n or 0)]
+
+
+def full_cols(desc):
+    """the columns of a scheme-less description, fillers ("pad": n) first"""
+    return pad_cols(desc.get("pad")) + desc["cols"]
+
+
 def line_of(desc):
-    return typed_line(desc["f"]) if desc["kind"] == "typed" else untyped_line(desc["cols"])
+    return typed_line(desc["f"]) if desc["kind"] == "typed" else untyped_line(full_cols(desc))
 
 
 # ------------------------------------------------------ FASTA index files
@@ -98,6 +108,8 @@ def expected_columns(desc):
         return None
     if desc["kind"] == "untyped":
         out = {}
+        if desc.get("pad"):
+            out["P0"] = "p"             # one filler stands for all of them (the model only asks "any column?")
         for n, v in desc["cols"]:
             out[n] = v
         return out
@@ -190,8 +202,8 @@ def build_obj(desc):
         scheme = find_scheme(version="gdc-1.0.0", annotation=None)
         return MafRecord.from_line(typed_line(desc["f"]), scheme=scheme,
                                    validation_stringency=ValidationStringency.Silent)
-    names = [n for n, _ in desc["cols"]]
-    return MafRecord.from_line(untyped_line(desc["cols"]), column_names=names,
+    names = [n for n, _ in full_cols(desc)]
+    return MafRecord.from_line(untyped_line(full_cols(desc)), column_names=names,
                                validation_stringency=ValidationStringency.Silent)
 
 
@@ -279,8 +291,9 @@ CHROM_SETS = [
 LONG = [str(i) for i in range(1, 23)] + ["X", "Y", "MT"]
 CHR_LONG = ["chr%d" % i for i in range(1, 23)] + ["chrX", "chrY", "chrM"]
 POSITIONS = [0, 1, 2, 9, 10, 11, 99, 100, 1000]      # 0: falsy; invalid (missing) under a typed one-based column
-TUMORS = ["T1", "T2", "T10", "TCGA-A", ""]      # "": falsy text (typed: rejected -> missing)
-NORMALS = ["N1", "N2", "N10", ""]                # "": typed nullable -> None
+TUMORS = ["T1", "T2", "T10", "TCGA-A", "", "7", "9", "10", "007"]   # digit-only barcodes are text: "10" < "9", "007" != "7"
+TUMORS_OLD = ["T1", "T2", "T10", "TCGA-A", ""]      # "": falsy text (typed: rejected -> missing)
+NORMALS = ["N1", "N2", "N10", "", "8", "10"]                # "": typed nullable -> None
 
 
 def gen_contigs(rng, chroms, mode):
